@@ -19,7 +19,7 @@
    V2Spec definitions, and the v1 resolver's refinement r7. *)
 From Coq Require Import Permutation Sorted.
 From Verif Require Import Lib.Bytes StateRes.Event StateRes.Kahn StateRes.V2 StateRes.V1 StateRes.Entry
-     StateRes.SortProofs StateRes.KahnProofs StateRes.OrderProofs StateRes.ResultProofs StateRes.CmpProofs StateRes.KahnOrderProofs StateRes.V2Spec StateRes.OrderSetProofs StateRes.SplitProofs.
+     StateRes.SortProofs StateRes.KahnProofs StateRes.OrderProofs StateRes.ResultProofs StateRes.CmpProofs StateRes.KahnOrderProofs StateRes.V2Spec StateRes.OrderSetProofs StateRes.SplitProofs StateRes.ChainProofs StateRes.V1Proofs.
 
 Section C10.
   Variable allowed : event -> list event -> bool.
@@ -127,6 +127,25 @@ Theorem split_is_spec (shG : groups -> groups) (sets : list (list event)) (e : e
   (In e (snd (split_conflicted shG false sets)) <-> In e (dedup_events (concat sets)) /\ spec_unconflicted sets e).
 Proof. intros. apply split_unconflicted_is_spec; assumption. Qed.
 
+
+(* the walk that collects a state set's full auth chain only collects events the
+   specification's reachability relation reaches. PARTIAL: the converse (the walk misses
+   nothing; missing lemma: chain_walk_complete - the fuel S (refs set + refs authmap + |authmap|)
+   suffices and the visited set is closed under auth steps) is not proved; the saturation
+   oracle C10.prop.authdiff checks both directions on every generated case. *)
+Theorem auth_difference_is_spec_partial (authmap set : list event) (x : event) :
+  In x (full_auth_chain authmap set) -> in_full_chain authmap set x.
+Proof. apply full_auth_chain_sound. Qed.
+
+
+(* v1: ResolveStateConflicts picks conflicted events - every event it returns is one of the
+   conflicted events it was given, for every auth oracle. (PARTIAL with respect to
+   v1_resolves_per_spec: that the pick per key is the one 6.2 r7 prescribes is tied to the code
+   by the correspondence only.) *)
+Theorem v1_resolves_per_spec_partial allowed conflicted auth_events x :
+  In x (v_result (resolve_v1 allowed conflicted auth_events)) -> In x conflicted.
+Proof. apply v1_picks_conflicted_events. Qed.
+
 (* the resolved state is a map: at most one event per (type, state_key), for every auth-rule
    oracle, rejected-event oracle and map iteration order *)
 Theorem result_is_a_state_map allowed rejected shE shP shG priv cl ud v21 sets auth_events e1 e2 :
@@ -155,4 +174,6 @@ Print Assumptions power_order_is_topological.
 Print Assumptions power_order_is_library_order.
 Print Assumptions mainline_order_sorted.
 Print Assumptions split_is_spec.
+Print Assumptions auth_difference_is_spec_partial.
+Print Assumptions v1_resolves_per_spec_partial.
 Print Assumptions result_is_a_state_map.
